@@ -452,11 +452,3 @@ Example spl_example :
   @spl_encode Q NumQ 0%Q (@mkObj Q [bu; bv] (o_cps o) 1 true) = None.
 Proof. vm_compute. repeat split; reflexivity. Qed.
 
-Print Assumptions spl_cps_nth.
-Print Assumptions spl_index_inv.
-Print Assumptions spl_index_surj.
-Print Assumptions spl_cps_coeffs.
-Print Assumptions spl_decode_lines.
-Print Assumptions spl_roundtrip.
-Print Assumptions spl_decode_sound.
-Print Assumptions spl_truncated_rejected.
